@@ -168,6 +168,7 @@ let do_step o =
   (* hypotheses of the container-consistency theorem (model/Wf.v): counted, not enforced *)
   bump "OpOutsideContainerHyp" (if op_ok_now !world o then 0 else 1);
   bump "OpOutsideRunningHyp" (if op_ok2_now !world o then 0 else 1);
+  bump "OpOutsideFlatHyp" (if op_ok3_now !world o then 0 else 1);
   let (w, r) = step !world o in
   world := w;
   (match o with ORead _ | OGet _ | OKeys _ | OEffects _ -> () | _ -> spec_memo := []);
